@@ -2379,23 +2379,30 @@ class ConvertPythonInstance:
                     converted_contexts = []
                     converted_blocks = []
 
+                    global _inline_declared_entities
+
                     while len(current_contexts) != 0 or len(current_blocks) != 0:
                         dummy_block = Block(
                             current_block_info._name, current_block_info._attributes
                         )
                         _block_stack.append(dummy_block)
 
-                        for block in current_blocks:
-                            converted_blocks.append(self.apply(block))
+                        try:
+                            for block in current_blocks:
+                                converted_blocks.append(self.apply(block))
 
-                        for ctx in current_contexts:
-                            converted_contexts.append(self.apply(ctx))
-
-                        _block_stack.pop()
+                            for ctx in current_contexts:
+                                converted_contexts.append(self.apply(ctx))
+                        except BaseException:
+                            # discard entities declared inside of the
+                            # failed contexts, they belong to this build
+                            _inline_declared_entities.clear()
+                            raise
+                        finally:
+                            _block_stack.pop()
                         current_contexts = dummy_block._cohdl_block_info._subcontext
                         current_blocks = dummy_block._cohdl_block_info._subblocks
 
-                    global _inline_declared_entities
                     while len(_inline_declared_entities) != 0:
                         inline_entities = _inline_declared_entities
                         _inline_declared_entities = []
